@@ -147,6 +147,9 @@ def gen(prop, stream, tier, avoid):
             op["grid"] = [rng.randint(2, 5) for _ in range(3)]
             op["target"] = rng.pick(["obj", "container"]) if (pooled and surf_idx) else "obj"
             op["n"] = rng.randint(3, 5)
+            # optional keyword arguments of voxelize(): the in-out padding under either of its two names, cube voxels
+            op["pad"] = rng.pick([None, None, ["tol", 0.0625], ["tol", 0.25], ["padding", 0.0625], ["padding", 0.25], ["tol", 1.0]])
+            op["use_cubes"] = rng.chance(0.2)
         elif k == "ctess":
             op["delta"] = rng.chance(0.6)
             op["force"] = rng.chance(0.5)
@@ -532,11 +535,16 @@ def execute_workload(script, cfg):
                         continue
                     obj.sample_size = op["n"]
                     tgt = obj
+                vkw = {}
+                if op.get("pad"):
+                    vkw[op["pad"][0]] = op["pad"][1]
+                if op.get("use_cubes"):
+                    vkw["use_cubes"] = True
                 if np_ > 1:
                     info["pooled_calls"] += 1
-                    grid, filled = g.voxelize.voxelize(tgt, grid_size=tuple(op["grid"]), num_procs=np_)
+                    grid, filled = g.voxelize.voxelize(tgt, grid_size=tuple(op["grid"]), num_procs=np_, **vkw)
                 else:
-                    grid, filled = g.voxelize.voxelize(tgt, grid_size=tuple(op["grid"]))
+                    grid, filled = g.voxelize.voxelize(tgt, grid_size=tuple(op["grid"]), **vkw)
                 val = [[[list(b[0]), list(b[1])] for b in grid], [int(bool(x)) for x in filled]]
             elif k == "cadd":
                 if nd != 2 or i in members or len(members) >= 4:
